@@ -66,3 +66,13 @@ func (n *Node) VerifCheckSuspend() { n.checkSuspend() }
 
 // VerifCore exposes the node's core.
 func (n *Node) VerifCore() *VerifCore { return &VerifCore{c: n.core} }
+
+// VerifFastForward runs the CatchingUp routine once (requests to all peers,
+// selection of the best response, restore, reset).
+func (n *Node) VerifFastForward() error { return n.fastForward() }
+
+// GenesisPeers exposes the genesis peer-set of the core.
+func (v *VerifCore) GenesisPeers() *peers.PeerSet { return v.c.genesisPeers }
+
+// Leave runs the core's leave procedure.
+func (v *VerifCore) RecordHeads() error { return v.c.recordHeads() }
